@@ -9,7 +9,8 @@
 //! Construction paths.  `conn <base>[:<path>] …` / `tconn <lib>[:<path>] …`: the service is obtained from its
 //! factory by `service()` (`s`), `ServiceFactory::new_service` (`f`), with a clone of the factory before
 //! (`cs`, `cf`) or of the service after (`sc`, `fc`), constructed directly (`k`, `kc`) or from `Default`
-//! (`d`, `ds`, `df`).  The oracle judges every op against the configuration the FACTORY was given.  Requests:
+//! (`d`, `ds`, `df`); `tconn <lib>[:<path>]#<slot>[c]` calls the connector service instance kept in a slot of the
+//! case (built on first use, reused afterwards; `c` = a fresh clone of it): every call is judged on its own.  The oracle judges every op against the configuration the FACTORY was given.  Requests:
 //! `s=` a `String`, `t=` a `&'static str`, `h=` a custom `Host` impl, `u=` / `v=` an `http::Uri` (http 1 / http 0.2,
 //! actix-tls feature `uri`; expected hostname and port from `parse_uri_text` + `WELL_KNOWN_PORTS`, an independent
 //! table); `from` = `ConnectInfo::from`.
@@ -2765,6 +2766,8 @@ mod tconn {
         pub lib: String,
         /// construction path of the connector service (`k` = `TlsConnector::service(config)`)
         pub path: String,
+        /// `#<slot>[c]`: call the instance kept in this slot (a clone of it if `c`) instead of a one-shot service
+        pub slot: Option<(usize, bool)>,
         pub srv: String,
         pub names: String,
         pub trusted: bool,
@@ -2839,7 +2842,14 @@ mod tconn {
         }
     }
 
-    pub fn run(rt: &tokio::runtime::Runtime, pk: &mut Pki, op: &TOp) -> Option<TRes> {
+    /// connector service instances a `kind=tlsconn` case keeps between its ops (`#<slot>`)
+    #[derive(Default)]
+    pub struct Slots {
+        r: HashMap<usize, c_rustls::TlsConnectorService>,
+        o: HashMap<usize, c_ossl::TlsConnectorService>,
+    }
+
+    pub fn run(rt: &tokio::runtime::Runtime, pk: &mut Pki, slots: &mut Slots, op: &TOp) -> Option<TRes> {
         let leaf = pk.leaf(&op.names, op.trusted)?;
         let (cend, send) = tokio::io::duplex(1 << 20);
         let seen = Rc::new(RefCell::new(0usize));
@@ -2882,6 +2892,7 @@ mod tconn {
                                 let path = op.path.as_str();
                                 let r: Result<super::acc::BoxIo, std::io::Error> = match lib {
                                     "r" => {
+                                        let build = async {
                                         let svc: c_rustls::TlsConnectorService = match path {
                                             "k" => c_rustls::TlsConnector::service(pk.rustls_client.clone()),
                                             "kc" => {
@@ -2904,9 +2915,32 @@ mod tconn {
                                                 b
                                             }
                                         };
-                                        svc.call(conn).await.map(|c| Box::new(c.into_parts().0) as super::acc::BoxIo)
+                                        svc
+                                        };
+                                        // one-shot service, or the instance kept in a slot of the case (built on first
+                                        // use, then REUSED for every later call on that slot), or a fresh clone of it
+                                        let fut = match op.slot {
+                                            None => build.await.call(conn),
+                                            Some((k, cloned)) => {
+                                                if !slots.r.contains_key(&k) {
+                                                    let svc = build.await;
+                                                    slots.r.insert(k, svc);
+                                                }
+                                                let inst = slots.r.get(&k).unwrap();
+                                                if cloned {
+                                                    let c = inst.clone();
+                                                    let f = c.call(conn);
+                                                    drop(c);
+                                                    f
+                                                } else {
+                                                    inst.call(conn)
+                                                }
+                                            }
+                                        };
+                                        fut.await.map(|c| Box::new(c.into_parts().0) as super::acc::BoxIo)
                                     }
                                     _ => {
+                                        let build = async {
                                         let svc: c_ossl::TlsConnectorService = match path {
                                             "k" => c_ossl::TlsConnector::service(pk.openssl_client.clone()),
                                             "kc" => {
@@ -2929,7 +2963,29 @@ mod tconn {
                                                 b
                                             }
                                         };
-                                        svc.call(conn).await.map(|c| Box::new(c.into_parts().0) as super::acc::BoxIo)
+                                        svc
+                                        };
+                                        // one-shot service, or the instance kept in a slot of the case (built on first
+                                        // use, then REUSED for every later call on that slot), or a fresh clone of it
+                                        let fut = match op.slot {
+                                            None => build.await.call(conn),
+                                            Some((k, cloned)) => {
+                                                if !slots.o.contains_key(&k) {
+                                                    let svc = build.await;
+                                                    slots.o.insert(k, svc);
+                                                }
+                                                let inst = slots.o.get(&k).unwrap();
+                                                if cloned {
+                                                    let c = inst.clone();
+                                                    let f = c.call(conn);
+                                                    drop(c);
+                                                    f
+                                                } else {
+                                                    inst.call(conn)
+                                                }
+                                            }
+                                        };
+                                        fut.await.map(|c| Box::new(c.into_parts().0) as super::acc::BoxIo)
                                     }
                                 };
                                 r
@@ -3268,6 +3324,37 @@ fn gen_c19(a: &Args, w: &mut dyn Write) {
     for bad in ["tconn r:s r good n=a.test s=a.test 1", "tconn r:d r good n=a.test s=a.test 1", "tconn r: r good n=a.test s=a.test 1", "tconn x:f r good n=a.test s=a.test 1", "tconn o:f:f r good n=a.test s=a.test 1"] {
         writeln!(w, "{bad}").unwrap();
     }
+    // (S) SEVERAL calls on ONE connector service instance (`#<slot>`; `#<slot>c` = on a fresh clone of it), every
+    //     order of {name the certificate covers, name it does not cover, syntactically invalid name, covered again}:
+    //     each call is judged for its OWN hostname - a name verified (or rejected) earlier must not stick to the service
+    let kinds_s = ["s=a.test", "s=other.test:443", "s=a..test", "h=b.a.test,8443", "s=127.0.0.1", "t=a.test:1", "s=~"];
+    let mut sn = 0usize;
+    for lib in ["r", "o"] {
+        for (ti, tp) in tpaths.iter().enumerate() {
+            // all ordered pairs (first call, second call) of request kinds on one fresh instance, then a third on a clone
+            for a in 0..kinds_s.len() {
+                sn += 1;
+                writeln!(w, "case tls-same-svc-{lib}-{ti}-{a} kind=tlsconn").unwrap();
+                for b in 0..kinds_s.len() {
+                    let slot = b % 4;
+                    let srv = if (sn + b) % 2 == 0 { "r" } else { "o" };
+                    // slots are reused across `b` (4 instances for 7 second-calls): longer histories on one instance
+                    writeln!(w, "tconn {lib}{tp}#{slot} {srv} good n=a.test;b.a.test {} {}", kinds_s[a], pay[(sn + b) % pay.len()]).unwrap();
+                    writeln!(w, "tconn {lib}#{slot} {} good n=a.test;b.a.test {} 1", if srv == "r" { "o" } else { "r" }, kinds_s[b]).unwrap();
+                    writeln!(w, "tconn {lib}#{slot}c {srv} good n=a.test;b.a.test {} 17", kinds_s[(a + b + 1) % kinds_s.len()]).unwrap();
+                    if b % 3 == 0 {
+                        // the same name against a certificate that does not cover it / an untrusted issuer, then covered again
+                        writeln!(w, "tconn {lib}#{slot} {srv} good n=other.test s=a.test 1").unwrap();
+                        writeln!(w, "tconn {lib}#{slot} {srv} bad n=a.test s=a.test 1").unwrap();
+                        writeln!(w, "tconn {lib}#{slot} {srv} good n=a.test s=a.test 100").unwrap();
+                    }
+                }
+            }
+        }
+    }
+    for bad in ["case tls-slot-bad kind=tlsconn", "tconn r#4 r good n=a.test s=a.test 1", "tconn r#0cc r good n=a.test s=a.test 1", "tconn r# r good n=a.test s=a.test 1", "tconn r#0#1 r good n=a.test s=a.test 1", "tconn r#1:f r good n=a.test s=a.test 1", "tconn o#c r good n=a.test s=a.test 1", "tconn o#3c r good n=a.test s=a.test 1"] {
+        writeln!(w, "{bad}").unwrap();
+    }
     for (hi, h) in thosts.iter().enumerate() {
         writeln!(w, "case tls-{hi} kind=tlsconn").unwrap();
         for c in certs {
@@ -3301,7 +3388,12 @@ fn gen_c19(a: &Args, w: &mut dyn Write) {
             let lib = if h.starts_with("s=.") { "r" } else { *rng.pick(&["r", "o"]) };
             let nn = rng.range(1, 3);
             let names: Vec<&str> = (0..nn).map(|_| *rng.pick(&["a.test", "*.a.test", "b.a.test", "127.0.0.1", "::1", "other.test", "*.b.a.test", "c.b.a.test", "127.0.0.2"])).collect();
-            writeln!(w, "tconn {lib}{} {} {} n={} {h} {}", rng.pick(&tpaths), rng.pick(&["r", "o"]), if rng.chance(1, 5) { "bad" } else { "good" }, names.join(";"), rng.below(70000).min(65536)).unwrap();
+            let slot = match rng.below(4) {
+                0 => String::new(),
+                1 => format!("#{}c", rng.below(2)),
+                _ => format!("#{}", rng.below(2)),
+            };
+            writeln!(w, "tconn {lib}{}{slot} {} {} n={} {h} {}", rng.pick(&tpaths), rng.pick(&["r", "o"]), if rng.chance(1, 5) { "bad" } else { "good" }, names.join(";"), rng.below(70000).min(65536)).unwrap();
         }
         if rng.chance(1, 8) {
             writeln!(w, "{}", rng.pick(&["tconn r r good n=a.test s=a.test", "tconn x r good n=a.test s=a.test 1", "tconn r r good a.test s=a.test 1", "tconn r r good n=a.test a.test 1", "tconn r r good n=a.test s=a.test 70000", "conn full err s=a", "poll 0"])).unwrap();
@@ -3959,6 +4051,7 @@ fn run_conn_group(rt: &tokio::runtime::Runtime, lines: &[String]) -> GroupOut {
     let mut real = vec![];
     let mut case = Case::None;
     let mut tpki: Option<tconn::Pki> = None;
+    let mut tslots = tconn::Slots::default();
     for line in lines {
         let ws: Vec<&str> = line.split_whitespace().collect();
         let r: String = match ws.as_slice() {
@@ -3995,6 +4088,7 @@ fn run_conn_group(rt: &tokio::runtime::Runtime, lines: &[String]) -> GroupOut {
                     }
                     Some("tlsconn") if rest.len() == 1 => {
                         case = Case::TlsConn;
+                        tslots = tconn::Slots::default();
                         "ok".into()
                     }
                     _ => "bad-op".into(),
@@ -4002,11 +4096,16 @@ fn run_conn_group(rt: &tokio::runtime::Runtime, lines: &[String]) -> GroupOut {
             }
             ["tconn", lib0, srv @ ("r" | "o"), ca @ ("good" | "bad"), names, host, payload]
                 if matches!(case, Case::TlsConn)
-                    && matches!(lib0.split(':').collect::<Vec<_>>().as_slice(), ["r" | "o"] | ["r" | "o", "k" | "kc" | "f" | "cf" | "fc"]) =>
+                    && matches!(lib0.split('#').collect::<Vec<_>>().as_slice(), [_] | [_, "0" | "1" | "2" | "3" | "0c" | "1c" | "2c" | "3c"])
+                    && matches!(lib0.split('#').next().unwrap().split(':').collect::<Vec<_>>().as_slice(), ["r" | "o"] | ["r" | "o", "k" | "kc" | "f" | "cf" | "fc"]) =>
             {
+                let (lib0, slot) = match lib0.split_once('#') {
+                    Some((l, sl)) => (l, Some((sl[..1].parse::<usize>().unwrap(), sl.ends_with('c')))),
+                    None => (*lib0, None),
+                };
                 let (lib, tpath) = match lib0.split_once(':') {
                     Some((l, p)) => (l, p),
-                    None => (*lib0, "k"),
+                    None => (lib0, "k"),
                 };
                 let lib = &lib;
                 let cx0 = Ctx { eps: vec![] };
@@ -4024,9 +4123,9 @@ fn run_conn_group(rt: &tokio::runtime::Runtime, lines: &[String]) -> GroupOut {
                 let payload = payload.parse::<usize>().ok().filter(|n| *n <= 65536 && n.to_string() == *payload);
                 match (host, names, payload) {
                     (Some(host), Some(names), Some(payload)) => {
-                        let op = tconn::TOp { lib: lib.to_string(), path: tpath.to_string(), srv: srv.to_string(), names: names.to_string(), trusted: *ca == "good", host, payload };
+                        let op = tconn::TOp { lib: lib.to_string(), path: tpath.to_string(), slot, srv: srv.to_string(), names: names.to_string(), trusted: *ca == "good", host, payload };
                         let pk = tpki.get_or_insert_with(tconn::Pki::new);
-                        match tconn::run(rt, pk, &op) {
+                        match tconn::run(rt, pk, &mut tslots, &op) {
                             None => "bad-op".into(),
                             Some(r) => {
                                 // (from the op text, not read back from the `Host` impl under test)
